@@ -24,6 +24,40 @@ pub fn oracle_selfcheck(cfg: &Cfg) -> Result<J, String> {
     if !crate::refs::fnv_selfcheck() {
         return Err("reference FNV-1a does not reproduce published vectors".into());
     }
+    // shape text syntax round-trips (replay files depend on it), including non-identifier names
+    {
+        use crate::model::{Shape, VData, VariantShape};
+        let odd = Shape::Struct(
+            crate::model::intern("Result<T, E>"),
+            vec![
+                (crate::model::intern(""), Shape::Option(Box::new(Shape::Unit))),
+                (crate::model::intern("with space"), Shape::Map(Box::new(Shape::Str), Box::new(Shape::Tuple(vec![])))),
+                (
+                    crate::model::intern("\u{540d}\u{524d}"),
+                    Shape::Enum(
+                        crate::model::intern("\u{1f980}"),
+                        vec![
+                            VariantShape { name: crate::model::intern("A"), data: VData::Unit },
+                            VariantShape { name: crate::model::intern("\u{0}"), data: VData::Tuple(vec![Shape::U8]) },
+                            VariantShape { name: crate::model::intern("B"), data: VData::Struct(vec![(crate::model::intern("k\u{e4}se"), Shape::F32)]) },
+                            VariantShape { name: crate::model::intern("C"), data: VData::Newtype(Box::new(Shape::TupleStruct(crate::model::intern("x"), vec![]))) },
+                        ],
+                    ),
+                ),
+            ],
+        );
+        let mut rng = crate::rng::Rng::new(7);
+        let mut shapes = vec![odd];
+        for _ in 0..50 {
+            shapes.push(crate::gen::gen_shape(&mut rng, 4, &crate::gen::ShapeOpts::full()));
+        }
+        for sh in shapes {
+            match Shape::parse(&sh.text()) {
+                Ok(back) if back == sh => {}
+                other => return Err(format!("shape text syntax does not round-trip for {}: {:?}", sh.text(), other.map(|s| s.text()))),
+            }
+        }
+    }
     let mut j = J::obj();
     j.set("wire_format_md_rows_reproduced", J::i(rows as u64));
     j.set("cobs_vectors_reproduced", J::i(cobs as u64));
